@@ -17,7 +17,7 @@ use std::task::{Context, Poll};
 pub fn prop() -> Prop {
   Prop {
     id: "C14",
-    rule: "case = (conversion in to_future / collect().to_future / to_stream / complete_status (flags + the future wait_for_end blocks on); source = hot Subject or SubjectThreads; history of <= 8 steps: next(numbered item), complete, error, poll the future / stream once with a wake-counting waker; polls happen before, between and after the source events). \
+    rule: "case = (conversion in to_future / collect().to_future / to_stream / complete_status (flags + the future wait_for_end blocks on); source = hot Subject or SubjectThreads; history of <= 8 steps (one in eight: each step repeated 20..60 times): next(numbered item), complete, error, poll the future / stream once with a wake-counting waker; polls happen before, between and after the source events). \
            Oracle: to_future resolves to Ok(Ok(v)) for exactly one item then complete, Err(Empty) for none, Err(MultipleValues) for several, Ok(Err(e)) for an error (after earlier items: the error or MultipleValues); collect().to_future resolves to all items; to_stream yields every item and then the error in order and then None; the status flags are all false before the terminal and exactly one of completed / error_occur afterwards. Readiness: a poll made after the source terminated returns Ready (the stream: Ready for every queued element and then Ready(None)), never Pending; a poll made before returns Pending and never an invented value; if a poll returned Pending, the waker it registered has been woken by the time the source has terminated. Non-trivial: a poll happened before the terminal, or the terminal is an error. Distinct by hash(case). \
            Part `threads` (engine T): a producer thread sends 0..2 items and then complete or error into SubjectThreads -> complete_status; a waiter thread blocks on the future that wait_for_end blocks on, through the harness block_on (parking is a controller state); schedule = <= 3 preemptions over the lock-acquisition yield points plus the hooked point between the status check and the waker registration; every schedule with <= 2 preemptions is enumerated per script. Oracle: both threads finish (a waiter parked for ever after the producer has finished is a lost wake-up verdict) and the waiter returns only after the terminal.",
     assumptions: &[
@@ -338,7 +338,7 @@ fn finish(conv: Conv, threads: bool, ops: Vec<Op>, ctx: &Ctx) -> Outcome {
 fn gen(c: &mut dyn Choices, max: usize) -> (Conv, Vec<Op>) {
   let conv = *c.one_of(&[Conv::ToFuture, Conv::ToStream, Conv::Status, Conv::CollectToFuture]);
   let n = c.pick(max + 1);
-  let ops = (0..n)
+  let ops: Vec<Op> = (0..n)
     .map(|_| match c.pick(7) {
       0 | 1 => Op::Next,
       2 => Op::Complete,
@@ -349,9 +349,29 @@ fn gen(c: &mut dyn Choices, max: usize) -> (Conv, Vec<Op>) {
   (conv, ops)
 }
 
+/// (appended picks, recorded tapes keep their meaning) one history in eight is long: every next / poll step
+/// becomes a burst of 20..60 (channel / collection growth)
+fn maybe_long(c: &mut dyn Choices, ops: Vec<Op>) -> Vec<Op> {
+  if c.pick(8) != 7 {
+    return ops;
+  }
+  let mut out = vec![];
+  for op in ops {
+    match op {
+      Op::Next | Op::Poll => {
+        let k = 20 + c.pick(41);
+        out.extend((0..k).map(|_| op.clone()));
+      }
+      o => out.push(o),
+    }
+  }
+  out
+}
+
 fn run_random(c: &mut dyn Choices, ctx: &Ctx) -> Outcome {
   let threads = c.pick(3) == 0;
   let (conv, ops) = gen(c, 8);
+  let ops = maybe_long(c, ops);
   finish(conv, threads, ops, ctx)
 }
 fn run_short(c: &mut dyn Choices, ctx: &Ctx) -> Outcome {
